@@ -9,7 +9,7 @@ from __future__ import annotations
 
 import common
 import plain
-from control_common import gen_control_case, pick_target, union, canon
+from control_common import gen_control_case, pick_target, pre_query, union, canon
 from plain import make_sd
 
 RULE = ("fresh diagram, random non-empty target (50% trap spaces), both strategies, size bound in {None,0,1,2,3}, random "
@@ -44,6 +44,7 @@ def run_case(case, fresh=True):
     if not target:
         return {"fails": [], "diffs": [], "nontrivial": False}
     forb = sorted({ni.names[i % ni.n] for i in case["forbidden"]})
+    pre_query(case, sd, ni, target)
     try:
         succs = successions_to_target(sd, target, expand_diagram=True, skip_feedforward_successions=case["skip_ff"])
     except RuntimeError:
